@@ -142,6 +142,14 @@ def directed_cases():
     for nfr in (70, 130, 250):      # (a fragment id is one byte: 255 fragments is the largest message the encoding can carry)
         cases.append(("long-message-head-lost:%d" % nfr, ps.Cfg(fragment_size=3, resend_timeout=1.0),
                       [[("c", 0, bytes((i * 7) & 0xFF for i in range(3 * nfr - 1))), ("c", 0, b"after")], [("s", 0, b"reply")]], ff_head, "budget", {}))
+    # an application that reads late: 40..150 complete messages wait unread for longer than the whole retransmission budget (the
+    # receiver is busy, or uploads first), then everything is read — nothing may be lost, the connection must survive (PRUDP has
+    # no flow control: whatever arrives must be taken off the wire and acknowledged regardless of what the application does)
+    for side, nmsg, version in (("c", 100, 1), ("s", 150, 1), ("c", 40, 0)):
+        other = "s" if side == "c" else "c"
+        cases.append(("slow-reader:%s:%d:v%d" % (side, nmsg, version), ps.Cfg(version=version, resend_timeout=0.5, resend_limit=2, read_delay={side: 4.0}),
+                      [[(other, 0, b"m%03d" % i) for i in range(nmsg)], [(side, 0, b"thanks"), (other, 0, b"bye")]],
+                      (lambda sim, rng: (lambda tx: [0.004])), "budget", {"phases_gap": 6.0}))
     # a peer that acknowledges DATA with (truthful, correctly signed) aggregate acknowledgements instead of individual ones — the
     # library never sends them itself: old format (v0; v1 with substream id 0) and new format (v1, substream id 1 as marker,
     # the substream in the payload), one and two substreams, with one DATA datagram lost
@@ -437,6 +445,8 @@ def work(args):
         sess = ps.run_session(cfg, sseed, script, ff, **kwargs)
         bad = judge(sess, regime)
         big = len(sess.netlog) > 20000
+        if isinstance(seed, str) and seed.startswith("slow-reader"):
+            rechunk = True          # judged on the real code only
         lines, expect = to_lines(sess, "s%d" % idx) if not sess.crash and not big and not sess.cfg.compression and not rechunk else ([], [])
         stats = {"tx": sum(1 for e in sess.netlog if e[0] == "tx"), "regime": regime if not isinstance(seed, str) else "directed:" + seed,
                  "enc": "lite" if cfg.transport == "lite" else "v%d" % cfg.version, "msgs": len(sess.accepted),
